@@ -41,8 +41,9 @@ void free_tasks(struct aln_tasks *t) { if (t) { VK_ASSERT(t == &the_tasks, "free
 int kalign_arr_to_msa(char **s, int *l, int n, struct msa **m) { (void)s; (void)l; (void)n; (void)m; return FAIL; }
 int kalign_msa_to_arr(struct msa *msa, char ***aligned, int *out_aln_len) { (void)msa; (void)aligned; (void)out_aln_len; return FAIL; }
 void kalign_free_msa(struct msa *msa) { (void)msa; n_freemsa++; }
-ESL_STOPWATCH *esl_stopwatch_Create(void) { static ESL_STOPWATCH w; return &w; }
-void esl_stopwatch_Destroy(ESL_STOPWATCH *w) { (void)w; }
+static int sw_live = 0;   /* timers created and not yet destroyed (the real ones are heap objects) */
+ESL_STOPWATCH *esl_stopwatch_Create(void) { static ESL_STOPWATCH w; sw_live++; return &w; }
+void esl_stopwatch_Destroy(ESL_STOPWATCH *w) { (void)w; sw_live--; }
 int esl_stopwatch_Start(ESL_STOPWATCH *w) { (void)w; return 0; }
 int esl_stopwatch_Stop(ESL_STOPWATCH *w) { (void)w; return 0; }
 int tl_stopwatch_Display(ESL_STOPWATCH *w) { (void)w; return 0; }
@@ -78,6 +79,9 @@ VK_MAIN()
                 VK_ASSERT(m.aligned == ALN_STATUS_FINAL, "C01: result is marked final");
         }
         VK_ASSERT(n_pfree == (pos(S_PARAM) >= 0 && !(failat == pos(S_PARAM) + 1) ? 1 : 0), "C16: scoring parameters released exactly once");
+        /* a stage from create_msa_tree on fails only when memory runs out (outside); every failure a caller can provoke
+         * (undetermined kind, type not fitting the kind, rejected penalties) happens before - no timer may be left then */
+        if (rc == OK || pos(S_ALIGN) < 0) VK_ASSERT(sw_live == 0, "C16: a successful or rejected call leaves no timer object behind");
         VK_ASSERT(n_tfree == (pos(S_ALLOCT) >= 0 && !(failat == pos(S_ALLOCT) + 1) ? 1 : 0), "C16: task list released exactly once");
         VK_END();
 }
